@@ -120,6 +120,10 @@ type c12Member struct {
 	// corrupt members behave honestly before their focus phase so that deep
 	// phases are reached by members that are still in good standing
 	focus int
+	// scripted multi-step collusion scenario (phase -> behaviour); a member
+	// with a script behaves honestly in the phases the script does not name
+	script     map[string]string
+	scriptPeer group.MemberIndex
 }
 
 var c12SendingPhases = []string{"p1", "p3", "p4", "p7", "p8", "p10"}
@@ -301,7 +305,145 @@ func c12Setup(t *rapid.T, cfg c12Config) *c12Run {
 			run.honestIdx = append(run.honestIdx, m.idx)
 		}
 	}
+	c12DrawScenario(t, run)
 	return run
+}
+
+// Structured collusion scenarios between two corrupt seats. Random per-phase
+// behaviours reach them only with tiny probability (three coordinated events),
+// so a share of the cases scripts them; everything else stays random.
+func c12DrawScenario(t *rapid.T, run *c12Run) {
+	var corrupt []*c12Member
+	for _, m := range run.members {
+		if m.corrupt {
+			corrupt = append(corrupt, m)
+		}
+	}
+	if len(corrupt) < 2 || rapid.IntRange(0, 3).Draw(t, "scenario") != 0 {
+		return
+	}
+	perm := rapid.Permutation(corrupt).Draw(t, "scenarioRoles")
+	a, b := perm[0], perm[1]
+	switch rapid.IntRange(0, 3).Draw(t, "scenarioKind") {
+	case 0:
+		// a sends b a bad share, b keeps quiet about it, a then fails in
+		// phase 7 so its key must be reconstructed; b reveals (or not)
+		a.script = map[string]string{"p3": rapid.SampledFrom([]string{"wrong-shares-for-peer", "garbage-shares-for-peer"}).Draw(t, "scnShare"),
+			"p7": rapid.SampledFrom([]string{"silent", "points-random"}).Draw(t, "scnP7"), "p8": "silent", "p10": "silent"}
+		a.scriptPeer = b.idx
+		b.script = map[string]string{"p4": "withhold-against-peer"}
+		if rapid.Bool().Draw(t, "scnBSilentReveal") {
+			b.script["p10"] = "silent"
+		}
+		b.scriptPeer = a.idx
+		run.note("scenario unreported-bad-share m%d->m%d", a.idx, b.idx)
+		run.fired["scenario:unreported-bad-share"] = true
+	case 1:
+		// two members of QUAL fail in phase 7: two reconstructions in one run
+		for _, m := range []*c12Member{a, b} {
+			m.script = map[string]string{"p7": rapid.SampledFrom([]string{"silent", "points-random", "points-short"}).Draw(t, fmt.Sprintf("scnP7-%d", m.idx)), "p8": "silent", "p10": "silent"}
+		}
+		run.note("scenario two-reconstructions m%d m%d", a.idx, b.idx)
+		run.fired["scenario:two-reconstructions"] = true
+	case 2:
+		// a needs reconstruction, b reveals keys selectively / wrongly
+		a.script = map[string]string{"p7": "silent", "p8": "silent", "p10": "silent"}
+		b.script = map[string]string{"p10": rapid.SampledFrom([]string{"reveal-omit-peer", "reveal-wrong-key-peer"}).Draw(t, "scnReveal")}
+		b.scriptPeer = a.idx
+		run.note("scenario bad-reveal m%d about m%d", b.idx, a.idx)
+		run.fired["scenario:bad-reveal"] = true
+	case 3:
+		// a sends b a bad share; b accuses honestly, a accuses b falsely
+		a.script = map[string]string{"p3": "wrong-shares-for-peer", "p4": "accuse-peer"}
+		a.scriptPeer = b.idx
+		b.script = map[string]string{}
+		b.scriptPeer = a.idx
+		run.note("scenario mutual-accusation m%d m%d", a.idx, b.idx)
+		run.fired["scenario:mutual-accusation"] = true
+	}
+}
+
+func (r *c12Run) scripted(t *rapid.T, m *c12Member, out []net.TaggedMarshaler, behaviour string, tag func(string)) []net.TaggedMarshaler {
+	tag("scripted-" + behaviour)
+	switch behaviour {
+	case "silent":
+		return nil
+	case "wrong-shares-for-peer", "garbage-shares-for-peer":
+		st := m.st.(*commitmentState)
+		var res []net.TaggedMarshaler
+		for _, o := range out {
+			shares, ok := o.(*PeerSharesMessage)
+			if !ok {
+				res = append(res, o)
+				continue
+			}
+			alt := newPeerSharesMessage(shares.senderID, shares.sessionID)
+			for k, v := range shares.shares {
+				alt.shares[k] = &peerShares{append([]byte{}, v.encryptedShareS...), append([]byte{}, v.encryptedShareT...)}
+			}
+			if behaviour == "garbage-shares-for-peer" {
+				alt.shares[m.scriptPeer] = &peerShares{[]byte("garbage-that-cannot-be-decrypted-xxxxxxxxxxxxxxxxxxxxxxxx"), []byte("garbage-garbage-garbage-garbage-garbage-garbage")}
+			} else if key, ok := st.member.symmetricKeys[m.scriptPeer]; ok {
+				sh := st.member.evaluateMemberShare(m.scriptPeer, st.member.secretCoefficients)
+				sh = new(big.Int).Mod(new(big.Int).Add(sh, big.NewInt(1)), c12Order)
+				if err := alt.addShares(m.scriptPeer, sh, c12RandScalar(), key); err != nil {
+					t.Fatalf("harness: addShares: %v", err)
+				}
+			}
+			res = append(res, alt)
+		}
+		return res
+	case "withhold-against-peer":
+		switch msg := out[0].(type) {
+		case *SecretSharesAccusationsMessage:
+			alt := &SecretSharesAccusationsMessage{senderID: msg.senderID, sessionID: msg.sessionID, accusedMembersKeys: map[group.MemberIndex]*ephemeral.PrivateKey{}}
+			for k, v := range msg.accusedMembersKeys {
+				if k != m.scriptPeer {
+					alt.accusedMembersKeys[k] = v
+				}
+			}
+			return []net.TaggedMarshaler{alt}
+		}
+		return out
+	case "accuse-peer":
+		switch msg := out[0].(type) {
+		case *SecretSharesAccusationsMessage:
+			st := m.st.(*commitmentsVerificationState)
+			alt := &SecretSharesAccusationsMessage{senderID: msg.senderID, sessionID: msg.sessionID, accusedMembersKeys: map[group.MemberIndex]*ephemeral.PrivateKey{}}
+			for k, v := range msg.accusedMembersKeys {
+				alt.accusedMembersKeys[k] = v
+			}
+			if kp, ok := st.member.ephemeralKeyPairs[m.scriptPeer]; ok {
+				alt.accusedMembersKeys[m.scriptPeer] = kp.PrivateKey
+			}
+			return []net.TaggedMarshaler{alt}
+		}
+		return out
+	case "points-random", "points-short":
+		msg := out[0].(*MemberPublicKeySharePointsMessage)
+		alt := &MemberPublicKeySharePointsMessage{senderID: msg.senderID, sessionID: msg.sessionID}
+		for i := range msg.publicKeySharePoints {
+			if behaviour == "points-short" && i == 0 && len(msg.publicKeySharePoints) > 1 {
+				continue
+			}
+			alt.publicKeySharePoints = append(alt.publicKeySharePoints, new(bn256.G2).ScalarBaseMult(c12RandScalar()))
+		}
+		return []net.TaggedMarshaler{alt}
+	case "reveal-omit-peer", "reveal-wrong-key-peer":
+		msg := out[0].(*MisbehavedEphemeralKeysMessage)
+		alt := &MisbehavedEphemeralKeysMessage{senderID: msg.senderID, sessionID: msg.sessionID, privateKeys: map[group.MemberIndex]*ephemeral.PrivateKey{}}
+		for k, v := range msg.privateKeys {
+			if k == m.scriptPeer {
+				if behaviour == "reveal-wrong-key-peer" {
+					alt.privateKeys[k] = c12FreshKey()
+				}
+				continue
+			}
+			alt.privateKeys[k] = v
+		}
+		return []net.TaggedMarshaler{alt}
+	}
+	return out
 }
 
 func c12Range(n int) []int {
@@ -369,6 +511,12 @@ func (r *c12Run) corrupt(t *rapid.T, m *c12Member, out []net.TaggedMarshaler) []
 	tag := func(b string) {
 		r.fired[phase+":"+b] = true
 		r.note("m%d %s %s", m.idx, phase, b)
+	}
+	if m.script != nil {
+		if b, ok := m.script[phase]; ok {
+			return r.scripted(t, m, out, b, tag)
+		}
+		return out
 	}
 	pi := c12SendingPhaseIndex(phase)
 	if pi < m.focus {
